@@ -4,7 +4,7 @@ import hist
 
 ID = "C06"
 LEAN_MODULES = ["CatiiProps.C06"]
-USES_TRANSLATOR = ['common_rowids', 'shift_to', 'append', 'filtered']   # Gen/MaskGen.lean: iindex.common_rowids as a mask program (tools/translate_mask.py); Gen/ShiftGen.lean: the re-encoding block of shift_common (tools/translate_shift.py)
+USES_TRANSLATOR = ['common_rowids', 'shift_to', 'append', 'filtered', 'queries']   # Gen/MaskGen.lean: iindex.common_rowids as a mask program (tools/translate_mask.py); Gen/ShiftGen.lean: the re-encoding block of shift_common (tools/translate_shift.py)
 RULE = ("histories of 1..12 operations from the full alphabet of the property on generated well-formed 1-D/2-D indexes "
         "(3-D for slicing / slice iteration), plus every index with <=3 rows, <=2 columns over {0,1,2} x every operation; "
         "after EVERY step: dense content vs NumPy reference, to_array(dtype=int), operands byte-compared, requested copies "
